@@ -102,7 +102,8 @@ End Meaning.
 Lemma bounds_subst_all m : forall t, bounds_of (subst_all m t) = map (bsubst_all m) (bounds_of t).
 Proof.
   induction m as [|[x e] m IH]; intro t; [destruct t; cbn; rewrite ?map_id; reflexivity|].
-  change (subst_all ((x, e) :: m) t) with (subst_all m (tsubst x e t)). rewrite IH. destruct t; reflexivity.
+  change (subst_all ((x, e) :: m) t) with (subst_all m (tsubst x e t)). rewrite IH. destruct t; try reflexivity.
+  cbn. rewrite map_map. reflexivity.
 Qed.
 Lemma bounds_subst_rounds m t : bounds_of (subst_rounds m t) = map (bsubst_rounds m) (bounds_of t).
 Proof.
